@@ -635,6 +635,40 @@ func genHistCase(r *rand.Rand, idx int, thorough bool) *lpCase {
 	return c
 }
 
+// genBigCase: a near-maximum packet (8179..8800 bytes) on one of the smallest MTUs with the header fields that shrink the
+// per-fragment payload most (32-byte token, congestion mark, incoming-face id): the largest fragment counts a sender can
+// produce (up to ~200); all frames go to the peer in random order.
+func genBigCase(r *rand.Rand, idx int) *lpCase {
+	c := &lpCase{id: fmt.Sprintf("big%d", idx), kind: "c10-perm", nthreads: 1, reasm: true}
+	mtu := []int{128, 129, 140, 157, 128, 135}[idx%6]
+	size := []int{8800, 8799, 8179, 8500, 8790, 8300}[idx%6] - r.Intn(3)
+	o := &lpOp{kind: "SEND", mtu: mtu, frag: true, ifi: idx%2 == 0, seq: seqStarts[r.Intn(len(seqStarts))], wire: mkData(r, size)}
+	switch idx % 3 {
+	case 0:
+		o.tok = make([]byte, 32)
+		r.Read(o.tok)
+		o.mark = utils.IdPtr(uint64(1))
+		o.inface = utils.IdPtr(uint64(1<<64 - 1))
+	case 1:
+		o.tok = []byte{0, 0, 1, 2, 3, 4}
+		o.mark = utils.IdPtr(uint64(300))
+	default:
+		o.inface = utils.IdPtr(uint64(70000))
+	}
+	c.ops = append(c.ops, o)
+	c.after = func(c *lpCase, r *rand.Rand) []*lpOp {
+		fs := c.ops[0].frames
+		idxs := r.Perm(len(fs))
+		res := make([]*lpOp, len(fs))
+		for k, i := range idxs {
+			res[k] = &lpOp{kind: "RECV", frame: fs[i]}
+			c.order = append(c.order, fmt.Sprintf("0.%d", i))
+		}
+		return res
+	}
+	return c
+}
+
 // genDispatchCase: the same Data (and an Interest) sent with every kind of PIT token - of our own format naming each
 // existing thread, naming thread ids that do not exist (count, count+1, 0xffff), foreign formats (1..5, 7..32 bytes), none -
 // unfragmented and fragmented, to a peer with 1 or several forwarding threads.  Checked after every frame: deliveries on ALL
@@ -1218,6 +1252,16 @@ func TestLpTrace(t *testing.T) {
 			}
 			for i := 0; i < nh; i++ {
 				cases = append(cases, genHistCase(r, i, thorough))
+			}
+		}
+		// near-maximum packets on the smallest MTUs: the sender's largest fragment counts against the receiver's bound
+		if nperm > 0 {
+			nb := 4
+			if thorough {
+				nb = 120
+			}
+			for i := 0; i < nb; i++ {
+				cases = append(cases, genBigCase(r, i))
 			}
 		}
 		// PIT token kinds x thread counts (exactly-once dispatch)
